@@ -145,3 +145,23 @@ for _pid in ("C12", "C14"):
     if "RrProofs.Pins" not in p["modules"]:
         p["modules"] += ["RrProofs.Pins"]
     p["theorems"] += [_PIN_GSM]
+
+# C05 on the recompression path: Content-Length, when present, equals the bytes delivered
+p = PROPS["C05"]
+p["modules"] += ["RrProofs.Props.C05Recompress"]
+p["theorems"] += [T("Props.C05Recompress.content_length_only_with_the_origins_bytes", "full",
+                    "recompression path, every codec / flag / Accept-Encoding / origin response: a Content-Length on the built response is the origin's own and stands next to the origin's own bytes (every body-changing branch deletes it)")]
+p["streams"] += [S("recomphdr", 6000, 60000)]
+p["rule"] += " | recomphdr (the real server on rules with recompression, real gzip/brotli codecs): last token = Content-Length absent or equal to the delivered byte count (oracle bad:C05:content-length-differs-from-the-bytes-delivered)"
+
+# C07 / C12 in schedules: torn views (finding C07-b) — refuted at full strength, proved without expiry and stale release
+for _pid in ("C07", "C12"):
+    p = PROPS[_pid]
+    p["modules"] += ["RrProofs.Props.C07Sched"]
+    p["theorems"] += [
+        T("Props.C07Sched.torn_witness", "witness", "schedule kf.C07-b: t0 fills and releases, the entry expires, t1 refreshes it with the next origin version, t0 streams its body: headers of version 1, bytes of version 2"),
+        T("Props.C07Sched.NoTornStatement_false", "negation", "the full statement (no schedule ever produces a client view with headers of one stored response and body of another) is false of the model and the code"),
+        T("Props.C07Sched.no_torn_partial", "partial", "for every thread count, fault assignment and schedule WITHOUT entry expiry and without a stale release (C12-b): no client view is torn — whatever the origin changes, self-healing removals and late writers"),
+        T("Props.C07Sched.NoTorn_false_stale", "negation", "the exclusion of stale releases is needed (a torn view without any expiry after a stale release)"),
+        T("Props.C07Sched.NoTorn_false_expire", "negation", "the exclusion of expiry is needed"),
+    ]
